@@ -868,6 +868,14 @@ def glue_greenlet() -> None:
                     and outer_frame.f_back is not None
                 ):
                     outer_frame = outer_frame.f_back
+        elif sys.implementation.name == "cpython":
+            # A suspended greenlet's stack ends where its f_back links do.
+            # Say so explicitly: if we are being called from one of its
+            # descendants, its frames are also part of the running stack,
+            # and we don't want to continue outward into its parents.
+            outer_frame = inner_frame
+            while outer_frame.f_back is not None:
+                outer_frame = outer_frame.f_back
         return StackSlice(outer=outer_frame, inner=inner_frame)
 
     if sys.implementation.name != "pypy":
